@@ -10,7 +10,7 @@ RUNLEVEL = ['C01', 'C02', 'C03', 'C04', 'C07', 'C12', 'C15', 'C20']
 TRUST = [
     'Lean 4.33.0 kernel; axioms of every registered theorem within {propext, Classical.choice, Quot.sound} (audited by #print axioms on this run)',
     'Mathlib v4.33.0 for the real-number proofs',
-    'translators harness/translate.py, translate_formulas.py, translate_loops.py, inline.py (constants, run() skeletons, evaluation / acceptance sites, guards, operator table, history rules, formula bodies as FExpr, check_limits as ClipLoop, sweeps as SweepLoop, budget terms, attribute / bound write tables — all regenerated from /repo on this run; their reading is cross-validated by executing the generated terms in the Lean driver against the running code)',
+    'translators harness/translate.py, translate_formulas.py, translate_loops.py with the rewriting layer inline.py (helper inlining, normal forms N1-N9; self-tested on every translation): constants, run() skeletons, evaluation / acceptance sites, guards, operator table, history rules, formula bodies (FExpr), check_limits (ClipLoop), sweeps (SweepLoop), budgets, traversals (WStmt), find_node (FProg), _properties (BfsProg), _evaluate (EvalProg), grow (GrowProg), _mutate / _cross (field writes on a heap), _reproduction (ReproLoop), tournament / Bernoulli (TournProg / BernProg), _initialize_agents (InitLoop), History.get / Opytimizer.start (frame records), attribute / bound write tables, effect sites - all regenerated from /repo on this run; the translated programs are also executed by the Lean driver against the running code on every case',
     'correspondence harness (taps, key embedding of doubles, canonicalisation, generators)',
     'CPython/NumPy semantics of the primitives the models name (np.clip, argmax, sort stability, deepcopy, pickle, hstack)',
     'IEEE-754 rounding is modelled, not verified; update arithmetic of the optimisers enters as oracle values',
